@@ -403,6 +403,10 @@ class WebSocketApp:
                 else:
                     self._callback(self.on_open)
 
+                if not self.keep_running:
+                    # close() was called from the open callback: the run simply ends
+                    return teardown()
+
                 dispatcher.read(self.sock.sock, read, check)
             except (
                 WebSocketConnectionClosedException,
